@@ -1,6 +1,8 @@
 (* Model/C14Run.v - case type and checker evaluated on harness-generated cases (C14).
-   One case = one exchange of the real client with a local origin.  Bodies are "blobs": the
-   real bytes when short, otherwise a tag (length + digest) - the model treats them opaquely.
+   One case = one exchange of the real client with a local origin (C14Case), or one SEQUENCE of
+   exchanges on one client with several bodies alive at once and interleaved operations (C14Seq).
+   Bodies of single exchanges are "blobs": the real bytes when short, otherwise a tag (length +
+   digest) - the model treats them opaquely; sequences carry real bytes (partial reads).
    The codec is the table of what the reference decoders (stdlib gzip/flate, brotli, zstd)
    made of the served bytes, supplied by the harness for exactly the calls the model makes. *)
 From ReqV Require Export Lib.Bytes Lib.PackedBytes Model.Decode Model.DecodeSession.
